@@ -3,6 +3,7 @@ import RtcVerif.Model.C02KeepSoft
 import RtcVerif.Proofs.C04Store
 import RtcVerif.Proofs.C02Loop
 import RtcVerif.Proofs.C02KeepSoft
+import RtcVerif.Proofs.C02Example
 import Mathlib.Algebra.Order.Field.Basic
 import Mathlib.Tactic.Linarith
 import Mathlib.Tactic.Ring
@@ -233,6 +234,94 @@ example :
     ∧ hardStep {} g2 s1 0 0 = ⟨EVal.ninf, EVal.fin (-1)⟩ := by
   decide +kernel
 
+/-- the hypotheses of `C02_no_degradation` are satisfiable: the run of `Proofs/C02Example.lean`
+    (a solver that answers the two problems of the run with feasible points) succeeds and the
+    theorem applies to it -/
+example : (runLoop {} 1 exOracle [[exG1], [exG2]] [] []).2 = true := by decide +kernel
+
+example : NoDegr {} 1 (fun _ => 1) (runLoop {} 1 exOracle [[exG1], [exG2]] [] []).1 := by
+  apply C02_no_degradation {} 1 (fun _ => 1) exOracle [[exG1], [exG2]] (by decide) (by decide)
+  · intro gs hgs g hg _
+    simp only [List.mem_cons, List.mem_nil_iff, or_false] at hgs
+    rcases hgs with rfl | rfl
+    · simp only [List.mem_cons, List.mem_nil_iff, or_false] at hg
+      subst hg
+      refine ⟨rfl, by norm_num, by decide, fun _ => ⟨-10, rfl⟩, fun _ => ⟨10, rfl⟩, ?_, ?_⟩
+      · intro i tm lo h1 h2
+        have : tm = 2 := by
+          have : exG1.mAt 0 i = XVal.e (EVal.fin 2) := rfl
+          rw [this] at h1; injection h1 with h; injection h with h; exact h.symm
+        have hl : lo = -10 := by
+          have : exG1.loAt 0 = XVal.e (EVal.fin (-10)) := rfl
+          rw [this] at h2; injection h2 with h; injection h with h; exact h.symm
+        subst this hl
+        exact ⟨by norm_num, by simp only [qabs, floatMax]; norm_num⟩
+      · intro i tM hi h1 _
+        have : exG1.MAt 0 i = XVal.nan := rfl
+        rw [this] at h1; cases h1
+    · simp only [List.mem_cons, List.mem_nil_iff, or_false] at hg
+      subst hg
+      refine ⟨rfl, by norm_num, by decide, (fun h => by cases h), (fun h => by cases h), ?_, ?_⟩
+      · intro i tm lo h1 _
+        have : exG2.mAt 0 i = XVal.nan := rfl
+        rw [this] at h1; cases h1
+      · intro i tM hi h1 _
+        have : exG2.MAt 0 i = XVal.nan := rfl
+        rw [this] at h1; cases h1
+  · intro st gs s hgs ho
+    simp only [exOracle] at ho
+    split at ho
+    · rename_i h
+      obtain ⟨rfl, rfl⟩ := h
+      cases ho
+      refine ⟨by intro k e h; simp [Store.get] at h, ?_⟩
+      intro gj g hg _ _ i hi
+      have hi0 : i = 0 := by omega
+      subst hi0
+      cases gj with
+      | succ j => simp at hg
+      | zero =>
+        simp only [List.getElem?_cons_zero, Option.some.injEq] at hg
+        subst hg
+        refine ⟨⟨?_, ?_⟩, ?_⟩
+        · intro tm lo _ h1 h2
+          have : tm = 2 := by
+            have : exG1.mAt 0 0 = XVal.e (EVal.fin 2) := rfl
+            rw [this] at h1; injection h1 with h; injection h with h; exact h.symm
+          have hl : lo = -10 := by
+            have : exG1.loAt 0 = XVal.e (EVal.fin (-10)) := rfl
+            rw [this] at h2; injection h2 with h; injection h with h; exact h.symm
+          subst this hl
+          simp only [softRow, qabs, floatMax, exS1, exG1, Goal.nomAt, getB]
+          norm_num
+        · intro tM hi' h
+          cases h
+        · exact noFold_of_one_sided _ _ _ _ rfl
+    · split at ho
+      · rename_i h
+        obtain ⟨rfl, rfl⟩ := h
+        cases ho
+        refine ⟨?_, ?_⟩
+        · intro k e h
+          simp only [Store.get, exSt1, List.lookup_cons, List.lookup_nil] at h
+          split at h
+          · cases h
+            simp only [Ivl.mem, scaled, exS2]
+            rename_i hk
+            have : k = ("x", 0) := by simpa using hk
+            subst this
+            constructor
+            · simp only [EVal.le_fin_fin]; norm_num
+            · simp [EVal.le_def, EVal.le]
+          · cases h
+        · intro gj g hg _ ht
+          cases gj with
+          | succ j => simp at hg
+          | zero =>
+            simp only [List.getElem?_cons_zero, Option.some.injEq] at hg
+            subst hg
+            cases ht
+      · cases ho
 example : ObjNoDegr false (1/2) 0 [fun _ => 3, fun k => if k = 0 then 7/2 else 1] := by
   intro a b sa sb hab ha hb
   have : a = 0 ∧ b = 1 := by
